@@ -240,12 +240,15 @@ spec("C19", ["C19/", "panic", "send/", "setup/"], c19_jobs("quick"), c19_jobs("t
      ["seams (harness/seams.json): one-line prologues inserted in memory into RunICMPTraceroute, (*UDPv4).Traceroute, (*TCPv4).Traceroute, RunSackTraceroute"])
 spec("C20", ["C20/"], [J("traceroute", "Verif_C20_fallback", ["end"], method=m) for m in ("syn", "", "sack", "syn_socket", "bogus")] +
      [J("traceroute", "Verif_C20_fallback", ["prefer-sack-ok", "prefer-fallback", "prefer-fatal"], method="prefer_sack")] +
-     [J("traceroute", "Verif_C20_e2e", ["end"], protocol="tcp", method=m) for m in ("sack", "prefer_sack", "syn")] + [J("traceroute", "Verif_C20_e2e", ["end"], protocol="udp", method="sack")],
+     [J("traceroute", "Verif_C20_e2e", ["end"], protocol="tcp", method=m) for m in ("sack", "prefer_sack", "syn")] + [J("traceroute", "Verif_C20_e2e", ["end"], protocol="udp", method="sack")] +
+     [J("sack", "Verif_Step_sack_arb", ["not-supported"], L=40, max=30, loosen=1, c20=1), J("sack", "Verif_C20_handshake", ["established", "not-supported"], max=30)],
      [J("traceroute", "Verif_C20_fallback", ["end"], method=m) for m in ("syn", "", "sack", "syn_socket", "bogus", "prefer_sack")] +
-     [J("traceroute", "Verif_C20_e2e", ["end"], protocol=p, method=m) for p in ("tcp", "udp", "icmp") for m in ("sack", "prefer_sack", "syn", "")],
+     [J("traceroute", "Verif_C20_e2e", ["end"], protocol=p, method=m) for p in ("tcp", "udp", "icmp") for m in ("sack", "prefer_sack", "syn", "")] +
+     [J("sack", "Verif_Step_sack_arb", ["not-supported"], L=40, max=30, loosen=1, c20=1), J("sack", "Verif_Step_sack_arb", ["not-supported"], L=48, max=255, loosen=0, c20=1, maxDOff=7),
+      J("sack", "Verif_C20_handshake", ["established", "not-supported"], max=30), J("sack", "Verif_C20_handshake", ["established", "not-supported"], max=255, noise=1)],
      {"error chains": "depth <= 3; each level fmt.Errorf %w / errors.Join / custom Unwrap type / fmt.Errorf %v (chain lost); NotSupportedError at the leaf or absent",
       "scope": "parts (a) and (d) of DESIGN 5 C20: the policy function with recording closures, and the e2e probe's method choice"},
-     ["where NotSupportedError really comes from (runSackTraceroute with models: not built yet)", "that method syn never dials (entry-point harness: not built yet)"])
+     ["dial failure => NotSupportedError and 'method syn never dials' (entry-point harness: not built yet)"])
 
 
 # ---- engine-level harnesses (model driver, real TracerouteParallel/Serial, all schedules) ----
@@ -321,6 +324,25 @@ spec("C18", ["C18/", "C08/dns", "C08/http", "C08/publicip", "C10/"],
      ["real resolver and HTTP stack (contract models only)", "go-cache's janitor goroutine", "net.IP.String modelled as an injective function of the canonical address when the address is symbolic"],
      ["model resolver assigned to reversedns.LookupAddrFn", "(*http.Client).Do redirected to a scripted model client: returns no later than the deadline it was handed",
       "backoff.ExponentialBackOff.NextBackOff = any duration in [0, 4.5 s]", "time.NewTimer/Reset/Stop on the virtual clock"], models=ENGINE_MODELS)
+
+
+# ---- C12 capture filters ----
+c12_q = [J("packets", "Verif_C12_exact", ["dropped"], filter="dropall"), J("packets", "Verif_C12_exact", ["accepted", "dropped"], filter="icmp"),
+         J("packets", "Verif_C12_exact", ["accepted", "dropped"], filter="synack"), J("packets", "Verif_C12_exact", ["accepted", "dropped"], filter="tcp"),
+         J("icmp", "Verif_C12_nohide_icmp", ["accepted"], L=56), J("icmp", "Verif_C12_nohide_icmp", ["accepted"], L=96, v6=1),
+         J("udp", "Verif_C12_nohide_udp", ["accepted"], L=56, loosen=1), J("udp", "Verif_C12_nohide_udp", ["accepted"], L=96, v6=1, min=2),
+         J("tcp", "Verif_C12_nohide_tcp", ["accepted"], L=56), J("tcp", "Verif_C12_nohide_tcp", ["accepted"], L=40, paris=1),
+         J("sack", "Verif_C12_nohide_sack", ["accepted"], L=56, max=30, loosen=1)]
+c12_t = c12_q + [J("icmp", "Verif_C12_nohide_icmp", ["accepted"], L=60, maxIHL=6), J("udp", "Verif_C12_nohide_udp", ["accepted"], L=60, maxIHL=6, loosen=0),
+                 J("tcp", "Verif_C12_nohide_tcp", ["accepted"], L=60, maxIHL=6), J("tcp", "Verif_C12_nohide_tcp", ["accepted"], L=48, maxDOff=7),
+                 J("sack", "Verif_C12_nohide_sack", ["accepted"], L=60, maxIHL=6, max=255, loosen=0), J("icmp", "Verif_C12_nohide_icmp", ["accepted"], L=28)]
+spec("C12", ["C12/"], c12_q, c12_t,
+     {"frames": "Ethernet frame of 110 symbolic bytes with a symbolic captured length 0..110 (covers IHL 15 + TCP header; longer frames differ only in bytes no program reads)",
+      "configuration": "filter tuple (both addresses, both ports) symbolic",
+      "vm": "the program returned by the real getClassicBPFFilter / GenerateTCP4Filter, disassembled and executed by the real golang.org/x/net/bpf VM under the symbolic executor",
+      "no-hidden-reply": "frame = 14 symbolic Ethernet bytes (ethertype of the family) + the arbitrary IP packet of the step harnesses; matcher accepts => filter accepts, with the filter each entry point installs"},
+     ["the kernel's cBPF interpreter (trusted to agree with x/net/bpf)", "VLAN-tagged frames", "the SYN-ACK handshake phase of the SACK run against its filter (handshake harness not built yet)",
+      "'unfragmented' is read as fragment offset = 0, which is what the property's own expression (jset 0x1fff) denotes"])
 
 for prop, s in SPECS.items():
     with open(os.path.join(HERE, prop + ".json"), "w") as f:
